@@ -167,9 +167,16 @@ class ImplRun:
     """
 
     def __init__(self, text, vals, imm, test_ids=True, mutate=False, listeners=1,
-                 draw=False, scheduler_uuid=""):
+                 draw=False, scheduler_uuid="", react=None, react_all=False):
         self.vals = vals
         self.imm = imm
+        # react[k] = j: inside the k-th notification delivered to function 0 the engine reports
+        # the j-th (mod the number of) pending services as finished (a completion of ANOTHER
+        # service sent re-entrantly from inside a callback)
+        self.react = react or []
+        self.react_all = react_all   # react also inside finished notifications
+        self.pending = []          # canonical ids announced to function 0 and not yet finished
+        self.nnot = 0
         self.mutate = mutate
         self.entries = []          # entries of the current call
         self.ids = {"t": {}, "s": {}}
@@ -258,18 +265,35 @@ class ImplRun:
             for i in range(len(lst)):
                 lst[i] = "mutated"
 
+    def _react(self, kind):
+        k = self.nnot
+        self.nnot += 1
+        if not (self.react_all or kind in ("TS", "SS")):
+            return
+        if k < len(self.react) and self.react[k] is not None and self.pending:
+            sid = self.pending[self.react[k] % len(self.pending)]
+            self.entries.append(("fire_in", sid))
+            with contextlib.redirect_stdout(io.StringIO()):
+                r = self.s.fire_event(Event("service_finished", {"service_uuid": self.uuid_of_sid[sid]}))
+            self.entries.append(("fire_out", sid, bool(r)))
+
     def on_ts(self, lid, t):
         self.entries.append(self._task_entry("TS", lid, t))
         if lid == 0:
             self._hostile(t)
+            self._react("TS")
 
     def on_tf(self, lid, t):
         self.entries.append(self._task_entry("TF", lid, t))
+        if lid == 0:
+            self._react("TF")
 
     def on_ss(self, lid, a):
-        self.entries.append(self._svc_entry("SS", lid, a))
+        e = self._svc_entry("SS", lid, a)
+        self.entries.append(e)
         if lid != 0:
             return
+        self.pending.append(e[5])
         self._hostile(a)
         k = self.nss
         self.nss += 1
@@ -277,9 +301,15 @@ class ImplRun:
             with contextlib.redirect_stdout(io.StringIO()):
                 r = self.s.fire_event(Event("service_finished", {"service_uuid": a.uuid}))
             self.reentrant_results.append(r)
+        self._react("SS")
 
     def on_sf(self, lid, a):
-        self.entries.append(self._svc_entry("SF", lid, a))
+        e = self._svc_entry("SF", lid, a)
+        self.entries.append(e)
+        if lid == 0:
+            if e[5] in self.pending:
+                self.pending.remove(e[5])
+            self._react("SF")
 
     def var(self, name, ctx):
         self.entries.append(("query", name, self.cid("t", ctx.uuid)))
